@@ -31,7 +31,10 @@ Definition covers_assets (sc : scenario) (inputs : list utxo) : Prop :=
 
 Definition ids (l : list utxo) : list N := map u_id l.
 
-(* distinct outpoints: the offered list is a set, and it is disjoint from the inputs already in the builder *)
+(* the inputs already in the builder are a map: one entry per outpoint (representation invariant of [sc_pre]).
+   Nothing is assumed about the offered list: it may repeat outpoints and overlap the builder's inputs *)
+Definition pre_distinct (sc : scenario) : Prop := NoDup (ids (sc_pre sc)).
+(* (the premise of the legacy variants, which did not leave out repeated outpoints) *)
 Definition distinct_outpoints (offered : list utxo) (sc : scenario) : Prop := NoDup (ids offered ++ ids (sc_pre sc)).
 
 Definition scenario_wf (offered : list utxo) (sc : scenario) : Prop :=
@@ -79,17 +82,27 @@ End Fees.
 Definition added_utxos (offered : list utxo) (trace : list nat) : list utxo :=
   flat_map (fun i => match nth_error offered i with Some u => [u] | None => [] end) trace.
 
-(* soundness of a successful selection: the three clauses of the property.  The asset half of the third clause
-   is stated outside the known class [asset_class_excluded] (C08-burn-not-covered, below) *)
+(* soundness of a successful selection: the three clauses of the property.  [eff] is the list the positions of
+   st_trace refer to (the offered UTxOs that are not yet in the builder, each outpoint once: effective_offered).
+   [asset_class_excluded] is false for the code as it is; the legacy variants exclude the class C08-burn-not-covered *)
 Definition sound_result (min_fee : imap -> result N) (fee_for_input : imap -> utxo -> result N)
-           (asset_class_excluded : bool) (offered : list utxo) (sc : scenario) (st' : sel_state) : Prop :=
+           (asset_class_excluded : bool) (offered eff : list utxo) (sc : scenario) (st' : sel_state) : Prop :=
   let before := imap_of_list (sc_pre sc) in
-  let added := added_utxos offered (st_trace st') in
+  let added := added_utxos eff (st_trace st') in
   distinct_members offered added /\
   preserved before (st_inputs st') added /\
   exists fee, required_fee min_fee fee_for_input before added = Ok fee /\
               covers_coin sc (st_inputs st') fee /\
               (asset_class_excluded = false -> covers_assets sc (st_inputs st')).
+
+(* fee_for_input as the code defines it since /repo d980bbe: the difference of min_fee() of the builder with and
+   without the input (both with the placeholder of min_fee()); an address add_regular_input refuses is an error *)
+Definition derived_ffi (min_fee : imap -> result N) (m : imap) (u : utxo) : result N :=
+  let* a := min_fee m in
+  if u_ok u then
+    let* b := min_fee (imap_insert u m) in
+    if a <=? b then Ok (b - a) else Err
+  else Err.
 
 (* ------------------------------------------------------------------------------------------- *)
 (* Known-finding classes (decidable, narrow) *)
@@ -127,7 +140,7 @@ Definition scenario_wfb (offered : list utxo) (sc : scenario) : bool :=
   value_wfb (sc_implicit sc) && value_wfb (sc_mint sc) && value_wfb (sc_burn sc).
 
 Definition premises_b (offered : list utxo) (sc : scenario) : bool :=
-  nodup_b (ids offered ++ ids (sc_pre sc)) && scenario_wfb offered sc.
+  nodup_b (ids (sc_pre sc)) && scenario_wfb offered sc.
 
 (* every selector that can have a non-zero demand *)
 Definition value_selectors (t : value) : list selector := asset_selectors t.
@@ -144,13 +157,26 @@ Definition lf_clause_applies (strat : strategy) (sc : scenario) : bool :=
   (negb (is_nil (sc_pre sc)) ||
    (coin (sc_implicit sc) + coin (sc_mint sc) <?
     sumQ ByCoin (map o_val (sc_outputs sc)) + sc_deposit sc + match sc_donation sc with Some d => d | None => 0 end)).
-Definition lf_largest_b (offered : list utxo) (pre_ids final_ids : list N) : bool :=
-  let added := filter (fun u => mem_b (u_id u) final_ids && negb (mem_b (u_id u) pre_ids)) offered in
-  let left_out := filter (fun u => negb (mem_b (u_id u) final_ids)) offered in
+Definition lf_added (eff : list utxo) (pre_ids final_ids : list N) : list utxo :=
+  filter (fun u => mem_b (u_id u) final_ids && negb (mem_b (u_id u) pre_ids)) eff.
+Definition lf_largest_b (eff : list utxo) (pre_ids final_ids : list N) : bool :=
+  let added := lf_added eff pre_ids final_ids in
+  let left_out := filter (fun u => negb (mem_b (u_id u) final_ids)) eff in
   forallb (fun w => forallb (fun a => coin (u_val w) <=? coin (u_val a)) added) left_out.
+(* the input largest-first added last: the smallest one, the first in offered order among equal ones *)
+Fixpoint min_coin_first (l : list utxo) : option utxo :=
+  match l with
+  | [] => None
+  | u :: r => match min_coin_first r with
+              | Some w => if coin (u_val u) <=? coin (u_val w) then Some u else Some w
+              | None => Some u
+              end
+  end.
+Definition lf_last_added (eff : list utxo) (pre_ids final_ids : list N) : option utxo :=
+  min_coin_first (lf_added eff pre_ids final_ids).
 
 Inductive verdict : Type := Holds | NotApplicable | Fails (class : N).
-(* classes: 0 = none (a violation), 1 = C08-burn-not-covered *)
+(* classes: 0 = none (a violation); no known class is left for the code as it is *)
 
 (* the UTxOs behind the reported outpoints: a present input wins over an offered one with the same outpoint *)
 Definition judge_inputs (offered pre : list utxo) (final_ids : list N) : list utxo :=
@@ -159,10 +185,13 @@ Definition judge_inputs (offered pre : list utxo) (final_ids : list N) : list ut
                      | None => match find_utxo x offered with Some u => [u] | None => [] end
                      end) final_ids.
 
+(* [prefix] = what the implementation reports about the builder without the input added last:
+   (outpoint left out, min_fee() of that builder) *)
 Definition judge (strat : strategy) (offered : list utxo) (sc : scenario)
-           (final_ids : list N) (explicit : value) (fee : N) : verdict :=
+           (final_ids : list N) (explicit : value) (fee : N) (prefix : option (N * N)) : verdict :=
   if negb (premises_b offered sc) then NotApplicable else
   let pre := imap_of_list (sc_pre sc) in
+  let eff := filter_offered (ids pre) offered in
   (* every outpoint of the result is a present or an offered one; no outpoint twice *)
   if negb (nodup_b final_ids && forallb (fun x => mem_b x (ids pre) || mem_b x (ids offered)) final_ids) then Fails 0 else
   (* inputs present before are still there *)
@@ -173,10 +202,21 @@ Definition judge (strat : strategy) (offered : list utxo) (sc : scenario)
   | Ok total =>
       if negb (value_eqb_sem total explicit) then Fails 0 else
       if negb (covers_qb ByCoin sc inputs fee) then Fails 0 else
-      (* largest-first: no offered UTxO left out holds more lovelace than one that was added *)
-      if lf_clause_applies strat sc && negb (lf_largest_b offered (ids pre) final_ids) then Fails 0 else
-      if forallb (fun s => covers_qb s sc inputs 0) (demand_selectors sc) then Holds
-      else if burn_class strat sc then Fails 1 else Fails 0
+      if negb (forallb (fun s => covers_qb s sc inputs 0) (demand_selectors sc)) then Fails 0 else
+      if lf_clause_applies strat sc then
+        (* largest-first: no offered UTxO left out holds more lovelace than one that was added … *)
+        if negb (lf_largest_b eff (ids pre) final_ids) then Fails 0 else
+        (* … and it stopped as soon as the target was covered: without the input added last, the builder does not
+           cover outputs + its own minimum fee *)
+        match lf_last_added eff (ids pre) final_ids, prefix with
+        | None, _ => Holds
+        | Some w, Some (x, g) =>
+            if (u_id w =? x) &&
+               negb (covers_qb ByCoin sc (filter (fun u => negb (u_id u =? x)) inputs) g)
+            then Holds else Fails 0
+        | Some _, None => Fails 0
+        end
+      else Holds
   | _ => Fails 0
   end.
 
@@ -189,6 +229,13 @@ Definition strategy_of_N (k : N) : strategy :=
 Definition run_model (min_fee : imap -> result N) (fee_for_input : imap -> utxo -> result N)
            (strat : strategy) (cs : list N) (offered : list utxo) (sc : scenario) : sel_state * outcome unit :=
   add_inputs_from min_fee fee_for_input current strat cs offered sc.
+
+(* what the harness reports for LargestFirst: the outpoint of the input added last (if the clause applies) *)
+Definition lf_prefix_outpoint (strat : strategy) (offered : list utxo) (sc : scenario) (final_ids : list N) : option N :=
+  if lf_clause_applies strat sc then
+    let pre := imap_of_list (sc_pre sc) in
+    option_map u_id (lf_last_added (filter_offered (ids pre) offered) (ids pre) final_ids)
+  else None.
 
 Definition explicit_input (st : sel_state) : result value := sum_values value_zero (map u_val (st_inputs st)).
 
